@@ -1,6 +1,8 @@
 """C09 — blob garbage statistics are exact and only unreferenced blob files are dropped.
 
 Decided: C09.a–e of DESIGN.md §3 (+ the crate-wide swapped-argument rule A). Not decided: numerical exactness."""
+import re
+
 from rules.engine import (MustSet, must_pass, success_ordered, origins, origin_callees, short, hir_walk, hir_expr_str,
                           hir_sites, codec_skeleton, compare_skeletons, split_sections, fn_param_names, hir_tail_name,
                           strip_generics, returned_payload_origins)
@@ -15,7 +17,7 @@ EXPLANATION = (
     "drained entry, and the only discards without a report are guarded by a tombstone test (tombstones carry no pointer); "
     "merge_tables installs the callback whenever key-value separation is configured; (c) the fragmentation diff collected "
     "by the callback is the value handed to CompactionFlavour::finish and on to Version::with_merge, and with_dropped adds "
-    "the dropped tables' linked blob files; (d) BlobFile::is_dead is `stale.bytes == total_uncompressed_bytes`, both "
+    "the dropped tables' linked blob files; (d) BlobFile::is_dead requires `stale.len == item_count` (every blob of the file is garbage; bytes alone do not show that), both "
     "finishers collect the dead blob files of the current version before upgrading, and gc stats are pruned after the "
     "blob-file list changed; (e) the gc-stats and linked-blob-file codecs agree field by field between writer and reader; "
     "(A) crate-wide: no call passes identically named arguments in permuted positions. Not decided: numeric exactness of "
@@ -45,6 +47,7 @@ def run(prog, R, tier="quick", only_rule=None):
     # "... and later the disk, exactly when nothing points into it": marks only after the version without the file is published
     from rules.props import c05
     c05.c05c(prog, R, rid="C09.i")
+    c09j(prog, R)
 
 
 def c09h(prog, R):
@@ -257,24 +260,35 @@ def dead_rule_shared(prog, R, rid):
 
 
 def dead_rule(prog, r):
+    """Specification, not the code, fixes the test: a blob file may leave the version exactly when *nothing* points into it,
+    i.e. when every blob of the file is garbage - the number of stale blobs equals the file's item count.  Comparing bytes
+    alone is not that: a blob with an empty value weighs nothing (finding F11)."""
     f = prog.need("vlog::blob_file::BlobFile::is_dead")
     h = prog.hir.get(f.path)
     cmps = [n for n in hir_walk(h["body"]) if n.get("k") == "bin" and n["op"] in ("==", "!=", "<", "<=", ">", ">=")]
+    ors = [n for n in hir_walk(h["body"]) if n.get("k") == "bin" and n["op"] == "||"]
     lets = {n["pat"]["n"]: hir_expr_str(n["init"]) for n in hir_walk(h["body"]) if n.get("k") == "let" and n["pat"].get("k") == "bind"
             and "init" in n}
-    ok = False
+
+    def norm(x):
+        x = lets.get(x, x)
+        return re.sub(r" as (u64|usize|u128)$", "", x)
+    count_ok = False
+    other = []
     desc = []
     for c in cmps:
-        l = hir_expr_str(c["l"])
-        rr = hir_expr_str(c["r"])
-        l = lets.get(l, l)
-        rr = lets.get(rr, rr)
+        l, rr = norm(hir_expr_str(c["l"])), norm(hir_expr_str(c["r"]))
         desc.append("%s %s %s" % (l, c["op"], rr))
-        if c["op"] == "==" and {l, rr} == {"x.bytes", "self.0.meta.total_uncompressed_bytes"}:
-            ok = True
-    r.check(ok and len(cmps) == 1, "%s|stale.bytes == meta.total_uncompressed_bytes" % f.path,
-            "the dead-file test is not `all uncompressed bytes are stale` (files with live blobs could be dropped, or dead "
-            "ones kept forever)", f.where(), "; ".join(desc))
+        if c["op"] == "==" and {l, rr} == {"x.len", "self.0.meta.item_count"}:
+            count_ok = True
+        elif c["op"] == "==" and {l, rr} == {"x.bytes", "self.0.meta.total_uncompressed_bytes"}:
+            pass      # an additional, weaker conjunct
+        else:
+            other.append(desc[-1])
+    r.check(count_ok and not other and not ors, "%s|dead <=> every blob of the file is stale (stale.len == meta.item_count)" % f.path,
+            "the dead-file test does not require that every blob of the file is garbage (%s): a file that still holds a live blob - "
+            "e.g. an empty value, which weighs no bytes - is dropped from the version and unlinked while a table points into it"
+            % ("; ".join(desc) or "no comparison"), f.where(), "; ".join(desc))
 
 
 def c09d_rest(prog, R, r):
@@ -393,3 +407,42 @@ def rule_a(prog, R, rid):
         r.check(hit and fn_param_names(prog, w) is not None, "witness|%s call sites visible with parameter names" % short(w),
                 "the argument-name rule cannot see calls of %s" % w, "")
     r.floor(4)
+
+
+def c09j(prog, R, rid="C09.j"):
+    """The dead test compares garbage with the totals recorded in the blob file: the uncompressed total accumulates the
+    `uncompressed_len` the caller states for each blob (not the length of the possibly compressed payload), and the item count
+    is incremented once per blob on every success path."""
+    from rules.engine import must_pass
+    from rules.props.c07 import store_blocks
+    r = R.rule(rid, "blob file totals (uncompressed bytes, item count) follow the blobs written", "D,P")
+    W = "vlog::blob_file::writer::Writer"
+    f = prog.fn(W + "::write_raw")
+    if f is None:
+        r.anchor_missing(W + "::write_raw")
+        return
+    names = [f.local_name(i) for i in range(1, f.argc + 1)]
+    if "uncompressed_len" not in names:
+        r.anchor_missing("parameter uncompressed_len of write_raw")
+        return
+    pidx = names.index("uncompressed_len") + 1
+    ok = False
+    detail = ""
+    for b in f.blocks:
+        for st in b["stmts"]:
+            if st["k"] == "assign" and "p" in st["to"] and st["to"]["p"][-1] == ".uncompressed_bytes:" + W:
+                for o in origins(f, st["rv"].get("op")):
+                    if o.kind == "bin" and str(o.what).startswith("Add"):
+                        srcs = origins(f, o.extra["a"]) + origins(f, o.extra["b"])
+                        detail = str(srcs)
+                        if any(x.kind == "param" and x.what == pidx for x in srcs) and \
+                                not any(x.kind == "call" and x.extra.sres.endswith("::len") for x in srcs):
+                            ok = True
+    r.check(ok, "%s::write_raw|uncompressed_bytes += uncompressed_len" % W,
+            "the blob file's uncompressed total does not accumulate the stated uncompressed length of each blob (with compression the "
+            "dead test compares garbage against a wrong total)", f.where(), detail)
+    for fld in ("item_count", "uncompressed_bytes"):
+        sb = store_blocks(f, ".%s:%s" % (fld, W))
+        r.check(bool(sb) and must_pass(f, sb), "%s::write_raw|%s updated on every success path" % (W, fld),
+                "a blob can be written without updating %s" % fld, f.where())
+    r.floor(3)
